@@ -536,3 +536,8 @@ def check(ctx):
     # C08.OBJ: scope types declared on one check object stay on that object
     from .c12 import check_identity
     check_identity(ctx, 'C08.OBJ')
+    # the token scope is taken from this call's credentials and the scope
+    # types from the registered rule as it is: nothing is remembered per
+    # context object, the rule is not modified (= C07.STATELESS)
+    from .c07 import check_stateless
+    check_stateless(ctx, 'C08.STATELESS')
